@@ -160,7 +160,7 @@ CHECKS = {
          "reads of each error kind at different lines and in an included file, through the three entry points, missing file, directory, "
          "ok/failing writes), with the isolated expectation of each event as direct oracle."),
    note=TB + "Assumes nesting within the parser stack bound (as C02D) and a run without include errors for the position theorem. The C++ exception mapping of the same record is checked under C17.",
-   technique='history-independence theorems in Lean 4 (incl. parser-loop invariants) + exhaustive-to-bound history correspondence', ref='§5 C09'),
+   technique='history-independence theorems in Lean 4 (incl. parser-loop invariants) + exhaustive-to-bound history correspondence + all-paths theorems (CF_*) about the control flow of __config_read / config_read_file / the include stack translated from the source', ref='§5 C09'),
  'C10': dict(
    text=("Proved: C10_splice — for every include tree of at most 10 levels cut at line boundaries (IncludeTreeOK': every named file "
          "exists, plain lines, bytes 1..255, the last file of a directive ends in a newline or nothing follows the directive on its "
@@ -195,16 +195,21 @@ CHECKS = {
          "config_read_string and config_read on a stream the harness then examines and closes; after each: open-descriptor delta 0, "
          "__lsan_do_recoverable_leak_check 0, error file as expected, dump of all file names under ASan."),
    note=TB + "Partial: leaks inside generated flex/bison code and libc are observed by LeakSanitizer, not proved; the model's event list has two documented deviations that the harness cannot observe (a spurious fclose event for an unopenable later file; fopen+fclose of a directory is one failed fopen event).",
-   technique='resource-ledger invariant proved in Lean 4 for every failure point + fault injection at every file/line with fd and LSan oracles', ref='§5 C11'),
+   technique='resource-ledger invariant proved in Lean 4 for every failure point + fault injection at every file/line with fd and LSan oracles + all-paths theorems (CF_*) about the control flow of __config_read / config_read_file / the include stack translated from the source', ref='§5 C11'),
  'C12': dict(
    text=("For every configuration and every outcome of the I/O steps (an arbitrary oracle): C12_iff (success is reported exactly when open, "
          "every write incl. the flush, the requested fsync and the close succeeded), C12_success_complete (then the file holds exactly "
          "config_write's bytes), C12_failure_reported (error type FILE_IO), C12_call_order (flush before fsync, close last). The control "
          "flow model is tied to config_write_file by fault enumeration on the real code: RLIMIT_FSIZE = n for byte offsets n across the "
          "output (all of them in the thorough tier for outputs up to 6000 bytes), /dev/full, missing directory, directory as target, "
-         "interposed failing fsync() and fclose(), fsync option off/on, outputs smaller and larger than the stdio buffer."),
-   note=TB + "stdio's reporting of failed write(2) calls through fflush/ferror and the kernel are trusted.",
-   technique='decision-logic theorems over an I/O fault oracle in Lean 4 + fault enumeration correspondence', ref='§5 C12'),
+         "interposed failing fsync() and fclose(), fsync option off/on, outputs smaller and larger than the stdio buffer. In addition the "
+         "control flow of config_write_file itself is TRANSLATED from the source on every run (Generated/CFlowSource.lean: the statement "
+         "tree with the source text of every statement and condition) and CF_write_success / CF_write_failure / CF_write_close are "
+         "decided by the kernel over ALL its paths: success only after a tested flush AND a tested ferror, a tested fsync when requested, "
+         "a tested fclose, in that order; every other path records the I/O error; an opened stream is closed exactly once."),
+   note=TB + "stdio's reporting of failed write(2) calls through fflush/ferror and the kernel are trusted. tools/ctranslate.py (clang AST source "
+        "ranges -> statement tree) is part of the trusted base of the CF_* theorems; they assume nothing about what the called functions compute.",
+   technique='decision-logic theorems over an I/O fault oracle in Lean 4 + all-paths theorems about the translated control flow of config_write_file + fault enumeration correspondence', ref='§5 C12'),
  'C13': dict(
    text=("Partial. Proved: C13_sites — in the inventory of raw allocation calls (malloc/calloc/realloc/strdup/...; extracted on every run from "
          "the PREPROCESSED C and C++ translation units, generated scanner and parser included, so YYMALLOC and flex's allocators are "
@@ -242,7 +247,7 @@ CHECKS = {
          "printf radix before/after; and two threads whose calls overlap in time (one parked inside its include function in the middle of "
          "a read while the other reads and writes floats), under all four set-ups."),
    note=TB + "Only the radix character is modelled; the C++ wrappers call the same C functions (checked under C17).",
-   technique='state-machine theorems in Lean 4 + differential correspondence under a synthesised comma-decimal locale', ref='§5 C15'),
+   technique='state-machine theorems in Lean 4 + differential correspondence under a synthesised comma-decimal locale + all-paths theorems (CF_*) about the control flow of __config_read / config_read_file / the include stack translated from the source', ref='§5 C15'),
  'C20': dict(
    text=("C20_chunking: the generated matcher's result (rule, length) is independent of how the input is cut into buffer refills "
          "(scanPartial_append, for every table set, every chunking, no size bound); C20_string_stream: the string and stream entry points "
